@@ -280,4 +280,100 @@ def c11(ctx):
                    "row collection exceeds it by kilobytes on the 300-row grids"])
 
 
-CHECKS = {"C10": c10, "C11": c11, "C03": c03, "C06": c06, "C01": c01, "C02": c02, "C04": c04, "C05": c05}
+def filter_vectors(ctx, mode):
+    vecs, _ = tlc_mc(ctx, "MC_Filter", consts={"Mode": '"%s"' % mode, "Big": "FALSE"}, invariants=["ParseOk", "EvalTotal", "Emit"],
+                     workers=8, timeout=3000)
+    return vecs
+
+
+def strip_numerals(j):
+    if isinstance(j, dict):
+        return {k: strip_numerals(v) for k, v in j.items() if k != "numeral"}
+    if isinstance(j, list):
+        return [strip_numerals(x) for x in j]
+    return j
+
+
+def c07(ctx):
+    q = ctx.quick
+    ve = strip_numerals(filter_vectors(ctx, "eval"))
+    vg = strip_numerals(filter_vectors(ctx, "grid"))
+    vw = strip_numerals(filter_vectors(ctx, "weq"))
+    ev1 = hs_run(ctx, ve + vg + vw, "gen")
+    ctx.bads += tlc_trace(ctx, "Trace_Filter", ev1, shards=12)
+    note_events(ctx, ev1, key=lambda e: [e.get("text"), e.get("rec"), e.get("rows"), e.get("db")])
+    return finish(ctx,
+                  "GEN: MC_Filter enumerates (filter, record) pairs - every has / missing / comparison term (5 paths of 1-4 segments x 6 "
+                  "operators x 11 literals of all literal kinds) against records whose resolved value is absent, Null, Marker, of the same or "
+                  "another kind, a list (flat, empty, nested), a dict; every and/or/parens shape of <= 3 terms over all presence patterns; "
+                  "(filter, 3-row grid) pairs for filter / filter_all; `*==` over ref databases with chains, 1/2/3-cycles and dangling refs "
+                  "with a caller-supplied resolver. The filter is obtained by parsing the specification's canonical print; TLC computes the "
+                  "denotational truth value (three-valued: mixed-unit ordering is left open) and compares. distinct = distinct pairs",
+                  ["Dict is the default resolver; the caller-supplied resolver of the harness follows Refs (its own code) - the library part "
+                   "under test there is the *== loop and the EvalContext plumbing", "^symbol and relationship terms are evaluated under C13"],
+                  exhaustive=True)
+
+
+def c08(ctx):
+    q = ctx.quick
+    vp = strip_numerals(filter_vectors(ctx, "parse"))
+    muts = [{"op": "filter.mutants", "text": x["texts"][0], "full": not q} for x in vp]
+    if q:
+        muts = muts[::4]
+    ev1 = hs_run(ctx, vp + muts, "gen")
+    ctx.bads += tlc_trace(ctx, "Trace_Filter", ev1, shards=14)
+    note_events(ctx, ev1, key=lambda e: e.get("text"), trivial=lambda e: e.get("outcome") != "ok")
+    n = 20000 if q else 300000
+    ev2 = hs_rec(ctx, "filterfuzz", n)
+    ctx.bads += tlc_trace(ctx, "Trace_Filter", ev2, shards=14)
+    note_events(ctx, ev2, key=lambda e: e.get("text"), trivial=lambda e: e.get("outcome") != "ok")
+    return finish(ctx,
+                  "GEN: MC_Filter (parse mode) checks FParse(FPrint(f)) = f for 615 filter trees (every term kind incl. ^symbol, "
+                  "relationship and *== terms, literals of every kind incl. strings with each escape, numbers with units/exponent, "
+                  "dates, times, timestamps with zones, refs with display names, uris, symbols, booleans; paths of 1-4 segments followed by "
+                  "and/or; precedence and grouping shapes) x 6 spacings (1-2 spaces, NL, TAB, CRLF, tight operators); libhaystack must parse "
+                  "each spelling to that tree, its Display text must be a sentence the TLA+ parser maps to the same tree, and its own "
+                  "re-parse must be equal; single-edit mutants of the canonical spellings that still parse get the same checks. REC: %d token soups; every accepted text gets the same print/re-parse checks and, where the "
+                  "TLA+ parser accepts, tree equality. distinct = distinct texts (non-trivial = accepted)" % n,
+                  ["Filter.tla transcribes docHaystack/Filters plus libhaystack's documented extensions; no spaces around '->' are ever written"])
+
+
+def c09(ctx):
+    q = ctx.quick
+    vp = strip_numerals(filter_vectors(ctx, "parse"))
+    muts = []
+    for x in vp:
+        muts.append({"op": "filter.mutants", "text": x["texts"][0], "full": not q})
+        if not q:
+            muts.append({"op": "filter.mutants", "text": x["texts"][1], "full": True})
+    if q:
+        muts = muts[::3]
+    bombs = [{"op": "dec.bomb", "fmt": "filter", "open": o, "mid": m, "close": c, "n": n}
+             for (o, m, c) in [("(", "a", ")"), ("(", "", ""), ("(", "a", ""), ("a and (", "b", ")"), ("not ", "a", ""), ("a->", "b", ""),
+                               ("a or ", "b", ""), ("a and ", "b", ""), ("( ", "a", " )")]
+             for n in (1, 10, 100, 127, 128, 129, 1000, 10000, 100000)]
+    vw = strip_numerals(filter_vectors(ctx, "weq"))
+    ev1 = hs_run(ctx, vp + muts + bombs + vw, "gen")
+    # bombs are dec.bomb events (Trace_Total), the rest filter events (Trace_Filter): split
+    evs = read_ndjson(ev1)
+    fa = ctx.fresh("filter") + ".ndjson"
+    fb = ctx.fresh("bomb") + ".ndjson"
+    write_ndjson(fa, [e for e in evs if e["op"].startswith("filter")])
+    write_ndjson(fb, [e for e in evs if e["op"].startswith("dec.")])
+    ctx.bads += tlc_trace(ctx, "Trace_Filter", fa, shards=14)
+    ctx.bads += tlc_trace(ctx, "Trace_Total", fb, shards=1)
+    note_events(ctx, ev1, key=lambda e: [e.get("text"), e.get("open"), e.get("n"), e.get("db"), e.get("rec")])
+    n = 30000 if q else 400000
+    ev2 = hs_rec(ctx, "filterfuzz", n)
+    ctx.bads += tlc_trace(ctx, "Trace_Filter", ev2, shards=14)
+    note_events(ctx, ev2, key=lambda e: e.get("text"))
+    return finish(ctx,
+                  "every prefix and single edit (delete/duplicate/replace/insert by 24 class representatives) of the printed filters of the "
+                  "C08 universe, operators without operands, unbalanced and nested parentheses / long and-or-not chains n in 1..10^5 "
+                  "(child process: a stack overflow is an exit status), %d random byte strings and token soups - parsed in an isolated "
+                  "worker process with a time limit; evaluation of `*==` against resolver databases with 1-, 2- and 3-cycles under a time "
+                  "limit. Trace_Filter / Trace_Total admit only ok | err (and a truth value for evaluation). distinct = distinct inputs" % n,
+                  ["hang = no reply within 3 s (15 s on the retry alone)"])
+
+
+CHECKS = {"C07": c07, "C08": c08, "C09": c09, "C10": c10, "C11": c11, "C03": c03, "C06": c06, "C01": c01, "C02": c02, "C04": c04, "C05": c05}
